@@ -57,14 +57,17 @@ class RenderFidelity(Obligation):
     alphabet = ALPHA
     timeout_ms = 30000
 
+    # names of the OTHER schemas of the document (and near misses): a property called like a schema is still what it declares
+    SCHEMA_LIKE = ["Color", "Other", "color", "other", "Thing", "COLOR"]
+
     def __init__(self, n, ptypes, last="zz"):
         self.n, self.ptypes, self.last = n, list(ptypes), last
         self.name = "render_fidelity/name_len=%d/types=%s%s" % (n, "+".join(self.ptypes), "" if last == "zz" else "/last=" + last)
-        self.bounds = {"property_name": "symbolic, %d characters over 'aAzZ-_1'" % n, "property_type": self.ptypes, "sibling_type": ["string", "array"],
-                       "required": "solver-chosen for the property and for the siblings"}
+        self.bounds = {"property_name": ("symbolic, %d characters over 'aAzZ-_1'" % n) if n else "one of %r (the document's other schema names and near misses)" % (self.SCHEMA_LIKE,),
+                       "property_type": self.ptypes, "sibling_type": ["string", "array"], "required": "solver-chosen for the property and for the siblings"}
 
     def make_inputs(self, e):
-        return {"pname": mk_sym_str(self.n, "pname", ALPHA), "ptype": self.ptypes[e.choose(len(self.ptypes), "ptype")], "required": bool(e.choose(2, "required")),
+        return {"pname": mk_sym_str(self.n, "pname", ALPHA) if self.n else self.SCHEMA_LIKE[e.choose(len(self.SCHEMA_LIKE), "token")], "ptype": self.ptypes[e.choose(len(self.ptypes), "ptype")], "required": bool(e.choose(2, "required")),
                 "sibling": ["string", "array"][e.choose(2, "sibling")], "sib_required": bool(e.choose(2, "sib_required"))}
 
     def _args(self, inp):
@@ -136,8 +139,8 @@ def mk(n, ptypes, last="zz"):
 
 def specs(tier):
     if tier == "quick":
-        return [(MOD, "mk", (1, tuple(c01.PTYPES) + ("map_default", "ref_default"))), (MOD, "mk", (2, ("string", "array", "model_ref"))), (MOD, "mk", (2, ("string", "integer"), "aa_2"))]
-    return [(MOD, "mk", (1, tuple(c01.PTYPES) + ("map_default", "ref_default"))), (MOD, "mk", (2, tuple(c01.PTYPES))), (MOD, "mk", (3, ("string", "array"))), (MOD, "mk", (2, ("string", "integer"), "aa_2")),
+        return [(MOD, "mk", (0, ("string", "integer", "array", "date"))), (MOD, "mk", (1, tuple(c01.PTYPES) + ("map_default", "ref_default"))), (MOD, "mk", (2, ("string", "array", "model_ref"))), (MOD, "mk", (2, ("string", "integer"), "aa_2"))]
+    return [(MOD, "mk", (0, tuple(c01.PTYPES))), (MOD, "mk", (1, tuple(c01.PTYPES) + ("map_default", "ref_default"))), (MOD, "mk", (2, tuple(c01.PTYPES))), (MOD, "mk", (3, ("string", "array"))), (MOD, "mk", (2, ("string", "integer"), "aa_2")),
             (MOD, "mk", (3, ("string",), "aa_2"))]
 
 
